@@ -25,8 +25,12 @@ contract(E + "ErrorExtraction.get_fields_for_exception", props=["C03", "C07"], c
               "(dom(result) == setof() and len(R) > 0)", ["C03"])])
 
 contract(T + "write_traceback", props=["C07", "C13", "C03"], cycle="extract", decreases="ite(_extract_fields, 2, 0)",
-         types={"logger": "Any", "exc_info": "Any", "_extract_fields": "bool"}, returns="none",
+         types={"logger": "Opt[role:ILogger]", "exc_info": "Opt[tuple]", "_extract_fields": "bool"}, returns="none",
          requires=[("current-ok", "cur_ok()")],
          modifies=LOGGING_FRAME, ghosts={"R": "seqe"},
          ensures=LOGGING_EFFECT + [
              ("one-traceback-then-reports", "LOG == old(LOG) + R and len(R) > 0 and all_reports(R)", ["C13"])])
+
+global_hint("eliot/_traceback.py:_traceback_no_io", "role:TracebackModule")
+contract("iface::TracebackModule.format_exception", params=["self", "typ", "exception", "tb"], returns="list[str]",
+         notes="traceback.format_exception (the no-I/O copy): returns a list of str, never raises", modifies=[])
